@@ -103,11 +103,17 @@ Definition same_fields (a b : event) : bool :=
   Nat.eqb (List.length a) (List.length b) && forallb (has_field b) a && forallb (has_field a) b.
 
 Definition event_ok (e : event) (index : bytes) (dec : option N) (o : lobs) : bool :=
-  ts_agrees e index dec o && same_fields (stored_fields e) (ob_fields o).
+  ts_agrees e index dec o && same_fields (store_cols (stored_fields e)) (ob_fields o).
+(* a single-document request: "_id" and "_type" are not returned by a search *)
+Definition doc_event_ok (e : event) (index : bytes) (o : lobs) : bool :=
+  ts_agrees e index None o && same_fields (store_cols (stored_fields_doc e)) (ob_fields o).
+Definition mk_docq (r : doc_route) (id : option bytes) (ty : bytes) (refresh : bool) : doc_req :=
+  {| dq_route := r; dq_id := id; dq_type := ty; dq_refresh := refresh |}.
 
 Inductive lcase :=
 | LEs (t : twire) (attrs : event)
 | LEsVia (al : list (bytes * bytes)) (t : twire) (attrs : event)
+| LEsDoc (gen : bytes) (q : doc_req) (t : twire) (attrs : event)
 | LHec (h : hec)
 | LOtlp (res : otlp_res) (sc : otlp_scope) (r : otlp_rec)
 | LSpan (s : span).
@@ -117,6 +123,7 @@ Definition lcase_ok (c : lcase * bytes * lobs) : bool :=
   match lc with
   | LEs t attrs => event_ok (es_build t attrs) index None o
   | LEsVia al t attrs => event_ok (es_build t attrs) (real_index al index) None o
+  | LEsDoc gen q t attrs => doc_event_ok (doc_build gen q t attrs) index o
   | LHec h => event_ok (hec_build h) index None o
   | LOtlp res sc r => event_ok (otlp_log_build res sc r) index (otlp_log_dec r) o
   | LSpan s => event_ok (span_build s) index None o
